@@ -173,4 +173,85 @@ theorem certsParse_inv (certOk : Bytes → Bool) : ∀ (n : Nat) (b : Bytes) (ce
     · have hc' : certOk ((b.drop 4).take (leDec (b.take 4))) = false := by simpa using hc
       simp only [hc', Bool.not_false, ↓reduceIte] at h; cases h
 
+/-- `RKHTv1.parse` accepted at most 128 bytes: they were exactly 128, cut into four 32-byte hashes -/
+theorem rkhtV1Parse_inv (t : Bytes) (l : List Bytes) (h : rkhtV1Parse t = .ok l) (ht : t.length ≤ 128) :
+    t.length = 128 ∧ l.flatten = t ∧ l.length = 4 ∧ ∀ x ∈ l, x.length = 32 := by
+  have g1 : G.rkhV1Size = 32 := rfl
+  simp only [rkhtV1Parse, Rkht.rkhtV1Init] at h
+  split at h
+  next hall =>
+    simp only [List.all_cons, List.all_nil, Bool.and_true, Bool.and_eq_true, beq_iff_eq, List.length_take, List.length_drop,
+      Rkht.G.rkhV1Size, g1] at hall
+    have hq : t.length / 4 = 32 := by omega
+    have h128 : t.length = 128 := by omega
+    simp only [Rkht.rkhtInit] at h
+    split at h
+    · cases h
+    · injection h with h
+      subst h
+      rw [hq]
+      refine ⟨h128, ?_, rfl, ?_⟩
+      · have e : t = t.take (32 + (32 + (32 + 32))) := by rw [List.take_of_length_le (by omega)]
+        conv => rhs; rw [e]
+        simp only [List.take_add, List.drop_drop, List.flatten_cons, List.flatten_nil, List.append_nil, List.append_assoc]
+      · intro x hx
+        simp only [List.mem_cons, List.mem_nil_iff, or_false] at hx
+        rcases hx with rfl | rfl | rfl | rfl <;> simp only [List.length_take, List.length_drop] <;> omega
+  next => cases h
+
+theorem pad4_of_len4 (l : List Bytes) (h : l.length = 4) : pad4 l = l := by simp [pad4, h]
+
+/-- `CertBlockV1.parse` accepted ARBITRARY bytes.  Then: the header parses, the block holds as many certificates as the header announces,
+    every certificate passed `certOk`, the RKH table has four 32-byte slots; if at least one certificate is present and the header's
+    `cert_table_length` is the size of the entries actually read (the parser itself does not compare them), the parsed block is well formed
+    and its body (header ‖ entries ‖ RKH table) is, byte for byte, the first `32 + cert_table_length + 128` bytes of the input -/
+theorem parseV1Block_inv (certOk : Bytes → Bool) (data : Bytes) (cb : CertBlockV1) (h : parseV1Block certOk data = .ok cb) :
+    ∃ hd : HeaderV1, headerV1Parse data = .ok hd ∧ cb.certs.length = hd.certCount ∧ cb.rkh.length = 4 ∧
+      (∀ c ∈ cb.certs, certOk c = true) ∧ cb.alignment = G.cbV1Alignment ∧
+      (hd.certCount ≠ 0 → hd.certTableLength = certTableLength cb.certs →
+        WFv1 certOk cb ∧ bodyV1 cb = data.take (32 + certTableLength cb.certs + 128)) := by
+  cases hh : headerV1Parse data with
+  | error e => simp only [parseV1Block, hh] at h; cases h
+  | ok hd =>
+    obtain ⟨hl, htake, b1, b2, b3, b4, b5, b6, b7⟩ := headerV1Parse_inv data hd hh
+    simp only [parseV1Block, hh, bind_ok] at h
+    split at h
+    · cases h
+    · cases hc : certsParse certOk hd.certCount (data.drop headerSizeV1) with
+      | error e => rw [hc] at h; cases h
+      | ok p =>
+        obtain ⟨certs, rest⟩ := p
+        rw [hc] at h
+        simp only [bind_ok] at h
+        cases hr : rkhtV1Parse (rest.take (G.rkhV1Size * G.rkhtV1Slots)) with
+        | error e => rw [hr] at h; cases h
+        | ok rkh =>
+          rw [hr] at h
+          simp only [bind_ok, pure_eq_ok, Except.ok.injEq] at h
+          subst h
+          have g : G.rkhV1Size * G.rkhtV1Slots = 128 := rfl
+          rw [g] at hr
+          obtain ⟨t128, hflat, hlen4, h32⟩ := rkhtV1Parse_inv _ rkh hr (by simp only [List.length_take]; omega)
+          have hrest : rest ≠ [] := by
+            intro he; rw [he] at t128; simp at t128
+          obtain ⟨hb, hcnt, hcs⟩ := certsParse_inv certOk _ _ certs rest hc hrest
+          refine ⟨hd, rfl, hcnt, hlen4, fun c hc' => (hcs c hc').2, rfl, fun hne hctl => ?_⟩
+          have hrl : 128 ≤ rest.length := by
+            simp only [List.length_take] at t128; omega
+          have wf : WFv1 certOk ⟨hd.major, hd.minor, hd.flags, hd.buildNumber, hd.imageLength, certs, rkh, G.cbV1Alignment⟩ :=
+            { major := b1, minor := b2, flags := b3, build := b4, image := b5
+              certs_ne := by intro he; rw [he] at hcnt; exact hne hcnt.symm
+              certs := hcs, count := by rw [hcnt]; exact b6, table := by rw [← hctl]; exact b7
+              rkh_len := by omega, rkh := h32, align := by decide }
+          refine ⟨wf, ?_⟩
+          simp only [bodyV1, pad4_of_len4 _ hlen4, hflat, hcnt, ← hctl]
+          rw [← htake]
+          have hd32 : data.drop 32 = certsBytes certs ++ rest := hb
+          have hcl : (certsBytes certs).length = hd.certTableLength := by rw [hctl]; exact certsBytes_len certs
+          have e1 : (certs.map (fun c => leEnc 4 c.length ++ c)).flatten = (data.drop 32).take hd.certTableLength := by
+            rw [hd32]; exact (List.take_left' hcl).symm
+          have e2 : rest.take 128 = ((data.drop 32).drop hd.certTableLength).take 128 := by
+            rw [hd32, List.drop_left' hcl]
+          rw [e1, e2, Nat.add_assoc, List.take_add, List.take_add, List.append_assoc]
+
 end SpsdkVerif.CertBlock
